@@ -7,7 +7,7 @@ ROOT = os.path.dirname(os.path.dirname(os.path.abspath(__file__)))
 
 TEXT = {
  "C20": ("Fault enumeration on the real contracts: for every message kind in its interesting shapes (swap with three outgoing transfers, 3-hop route, first/later/locked deposits, single-asset deposits with and without lock on both pool types, withdrawal, pool creation, claim paying two denoms, emergency withdrawal paying two farm owners, farm close/expand/create closing two expired farms) the k-th internal bank/token-factory call is failed for every k; the whole-chain store digest and the projected state must equal the pre-state, a retry must equal the fault-free run, and a failing farm-close refund must be swallowed without other effect (Trace_Fault). Every validation-rejected message of all other traces must leave the projected state unchanged (C20_* guards). MC_Exec checks the dispatch/rollback model (Cw.tla) over the entry points' response shapes, cross-checked against the recorded call counts.", "3 C20"),
- "C15": ("MC_Auth enumerates the complete authorisation graph (4 contracts x every reachable ownership state x every privileged message variant x 5 sender roles x funds or not: 154 states, 16 762 edges) and checks the ownership/config action properties; every edge is replayed on the real contracts and Trace_Auth recomputes outcome and resulting ownership from Ownable.tla and requires rejected edges to leave the whole chain store unchanged. Farm expansion/closing and position management authorisation are judged by the C15_* guards on the farm and pool traces.", "3 C15"),
+ "C15": ("MC_Auth enumerates the complete authorisation graph (4 contracts x every reachable ownership state x every privileged message variant x 5 sender roles x funds or not: 154 states, 16 762 edges) and MC_AuthObj the complete graph of farm expand/close and position create-for/expand/close/withdraw/emergency x 5 roles x every (farm, position) state (282 edges); every edge of both graphs is replayed on the real contracts and Trace_Auth recomputes outcome and resulting state from Ownable.tla and requires rejected edges to leave the whole chain store unchanged. The C15_* guards on the farm and pool traces judge the same rules inside random histories.", "3 C15"),
  "C01": ("MC_Pool explores all bounded interleavings of deposits, single-asset deposits, withdrawals, swaps, routes, donations and toggles over two pools sharing a denom with the custody invariant and the excess rule as an action property; Trace_Pool evaluates both on the bank balances and reserves observed after every event (accepted or rejected) of every pool trace of the real contracts, all pool types.", "3 C01"),
  "C02": ("MC_Pool checks LP accounting, supply floor and value-per-LP monotonicity for the exact constant-product formulas; Trace_Pool judges every deposit and withdrawal of the real contracts with BigNat arithmetic: mint bounded by the contribution (constant product: min of shares; stableswap: growth of the exact invariant via polynomial sign tests), pro-rata payouts within one unit, redeemability, supply floor, LP supply changed only by liquidity operations.", "3 C02"),
  "C03": ("MC_Pool checks x*y monotonicity and a no-profit round trip through a pool for the exact formulas; Trace_Pool checks on every executed swap, hop and internal swap of the real contracts that x*y (constant product) resp. the exact Curve invariant (sign test of the integer polynomial at floor(D*), balances scaled by 10^6) does not decrease. The recorded finding F7 (rounding-size decrease on stableswap) is matched by a spec-level trigger with a three-unit residual bound.", "3 C03"),
